@@ -161,7 +161,13 @@ def cli_cases(ctx, rng):
              (b'int table[20000];\nempty @is_you() { table[0] = 1; write(table[0]); }\n', ['-m', '16']),
              (b'empty f() { }\n', []), (b'empty @is_you(bool b) { }\n', []), (b'empty @is_you() { }\nempty @is_you(int a) { }\n', []),
              (b'int @is_you() { return 1; }\n', []), (b'empty @is_you(string[] a) { }\n', []), (b'empty @is_you(const string[] a, int[] b) { }\n', []),
-             (b'int g = 1;\nint h = g + 1;\nempty @is_you() { write(h); }\n', []), (b'string s = "a";\nbyte c = s[0];\nempty @is_you() { write(c); }\n', [])]
+             (b'int g = 1;\nint h = g + 1;\nempty @is_you() { write(h); }\n', []), (b'string s = "a";\nbyte c = s[0];\nempty @is_you() { write(c); }\n', []),
+             # integers beyond CPython's int <-> str digit limit: literals in every base, folded products, bounds of very wide words
+             (b'empty @is_you() { write(0x' + b'f' * 4000 + b'); }\n', []), (b'empty @is_you() { int x = 0b' + b'1' * 16000 + b'; write(x); }\n', ['-m', '24']),
+             (b'empty @is_you() { write(0o' + b'7' * 6000 + b' == 1); }\n', ['--unchecked']), (b'int g = 0x' + b'9' * 3600 + b';\nempty @is_you() { write(g); }\n', []),
+             (b'const int[] t = [1, 0x' + b'a' * 3700 + b'];\nempty @is_you() { write(t[1]); }\n', []),
+             (b'empty @is_you() { write(' + b' * '.join([b'0x' + b'f' * 64] * 80) + b'); }\n', []), (b'empty @is_you() { write(' + b'9' * 5000 + b'); }\n', []),
+             (good.encode(), ['-m', '14288']), (b'empty @is_you(int a) { write(a / 3); }\n', ['-m', '16000']), (good.encode(), ['-m', '80000', '--unchecked'])]
     n = 0
     for k, (data, opts) in enumerate(cases):
         src = os.path.join(work, 'in%d.hid' % k)
@@ -174,7 +180,7 @@ def cli_cases(ctx, rng):
                            env=dict(os.environ, PYTHONPATH=REPO))
         n += 1
         err = p.stderr.decode(errors='replace')
-        desc = dict(input=data[:200].decode('latin1'), options=opts, exit=p.returncode, stderr=err[-400:])
+        desc = dict(input=(data if len(data) <= 40000 else data[:200]).decode('latin1'), options=opts, exit=p.returncode, stderr=err[-400:])
         if 'Traceback (most recent call last)' in err:
             ctx.violate('command-line tool escaped with an internal exception', cls='cli_traceback', **desc)
             continue
